@@ -186,6 +186,15 @@ def impl_ev1_pub(a):
     return [k.RawCompressed().ToBytes(), k.RawUncompressed().ToBytes()]
 
 
+def _ev1_keys(k):
+    return [k.RawCompressed().ToBytes(), k.RawUncompressed().ToBytes()]
+
+
+def _pt(pubc):
+    P = ecref.SECP256K1.deser(pubc)
+    return [] if P is None else [P[0], P[1]]
+
+
 def impl_ev1_priv(a):
     kb, pub_first, change, addr = a
     return ev1_obj(kb, pub_first).GetPrivateKey(change, addr).Raw().ToBytes()
@@ -248,6 +257,8 @@ FUNCS = {
     # step by step, and against the standard recomputed, incl. extended key and P2PKH address
     "commute": Func(model=model_commute, impl=impl_commute, direct=direct_commute),
     "ev1_pub": Func(model=lambda m, a: m.call("ev1_get_public_key", *a), impl=impl_ev1_pub, direct=direct_ev1),
+    "ev1_from_pub": Func(model=lambda m, a: m.call("ev1_pub_get_public_key", _pt(a[0]), a[1], a[2]),
+                         impl=lambda a: _ev1_keys(ElectrumV1.FromPublicKey(a[0]).GetPublicKey(a[1], a[2]))),
     "ev1_priv": Func(model=lambda m, a: m.call("ev1_get_private_key", *a), impl=impl_ev1_priv),
     "ev2": Func(direct=direct_ev2, impl=lambda a: ElectrumV2Standard(Bip32Slip10Secp256k1.FromSeed(a[0]))
                 .GetPublicKey(a[1], a[2]).RawCompressed().ToBytes(),
@@ -379,6 +390,7 @@ def generate(ctx):
         # public-only start objects from raw public keys
         par = R.derive(curve, seed, [HARD + 1])
         ctx.run("script", [curve, [], [2, par.pubc, par.depth, par.index, par.chain, par.pfp], [[0, 5], [3]]], "from-public-key")
+        ctx.run("script", [curve, [], [2, par.pubc, par.depth, par.index, par.chain, par.pfp], [[0, 5], [0, HARD - 1]]], "from-public-key")
         ctx.run("script", [curve, [], [2, par.pubc, par.depth, par.index, par.chain, par.pfp], [[0, HARD + 5]]], "from-public-key-hardened")
 
     # -- the published SLIP-0010 retry child, watch-only (F1 on the public side)
@@ -406,7 +418,7 @@ def generate(ctx):
 
     # -- random parents x random soft paths
     k = 0
-    total = ctx.n(220, 5000)
+    total = ctx.n(500, 8000)
     while k < total and ctx.time_left():
         k += 1
         curve = rng.randrange(2)
@@ -436,5 +448,6 @@ def generate(ctx):
             change, addr = rng.choice([0, 1, rng.randrange(1 << 32)]), rng.choice([0, rng.randrange(1000), rng.randrange(1 << 32)])
             ctx.run("ev1_pub", [kb, rng.randrange(2), change, addr], "ev1-rand")
             ctx.run("ev1_priv", [kb, 0, change, addr], "ev1-rand")
+            ctx.run("ev1_from_pub", [R.pub_bytes(0, kb), change, addr], "ev1-rand")
         if k % 6 == 0:
             ctx.run("ev2", [rand_seed(rng), rng.choice([0, 1]), rng.randrange(HARD)], "ev2-rand")
